@@ -255,7 +255,9 @@ def handleN (case impl : List String) : Verdict :=
         | some i => v.withSpec true "normal-not-unit" s!"vertex {i}: | |n|² − 1 | > 2e-3"
         | none => v
       let rep := representatives m ax
-      let v := match wrongSide m rep with
+      -- lathe solids step round the axis incrementally: the rounding of `secs` steps accumulates in a corner
+      let noiseK := match ex.rings with | some (secs, _) => max 1 (secs / 8) | none => 1
+      let v := match wrongSide m rep noiseK with
         | some (k, i) => v.withSpec true "normal-wrong-side" s!"face {k}: normal of vertex {i} is not on the side of (b−a)×(c−a)"
         | none => v
       let edges := directedEdges m rep
